@@ -42,6 +42,14 @@ StatusShareOK(x, y) ==
 ShareConsistent(a, s) ==
   \A t \in LBs(a) \ {s} : (Range(a[s].status) \cap Range(a[t].status) # {}) => StatusShareOK(a[s], a[t])
 
+(* no other service the controller still has on record holds one of the     *)
+(* addresses of s in a way that excludes s (e.g. a deletion or re-key that  *)
+(* has not been processed yet)                                              *)
+MemConsistent(m, s, x) ==
+  \A t \in SvcAll \ {s} :
+     (m[t] # NULL /\ Range(m[t].ips) \cap Range(x.status) # {}) =>
+        ShareOK(m[t], [sk |-> x.spec.share, bk |-> BackendKey(x.spec), ports |-> x.spec.ports])
+
 FamMatch(st, sp) ==
   CASE sp.fam = "v4" -> Len(st) = 1 /\ Fam(st[1]) = "v4"
     [] sp.fam = "v6" -> Len(st) = 1 /\ Fam(st[1]) = "v6"
@@ -88,6 +96,7 @@ C03_Stable(j, o) ==
           /\ a[s].status # <<>>
           /\ \A L \in {p.ctl, p.cfgApi, o.ctl, o.cfgApi} : AdmissibleIn(L, s, a[s].spec, a[s].status)
           /\ ShareConsistent(a, s)
+          /\ MemConsistent(Mem(p), s, a[s])
           /\ \A t \in (LBs(a) \cap LBs(b)) \ {s} :
                 (Range(a[s].status) \cap Range(a[t].status) # {}) => StatusShareOK(b[s], b[t]) )
         => \/ SetEq(b[s].status, a[s].status)
